@@ -56,19 +56,20 @@ Lt3(a, b) == \/ a[1] < b[1]
              \/ a[1] = b[1] /\ a[2] = b[2] /\ a[3] < b[3]
 
 (***************************************************************************)
-(* Claims: which in-use inode (or shared xattr block) owns which blocks    *)
+(* Claims: which in-use inode (or shared xattr block) owns which blocks.   *)
+(* A claim is <<lo, hi, ino, class, ix, pos>>: blocks lo..hi are entry pos *)
+(* of the class list (1 data, 2 index, 3 ind) of the inode record ix; a    *)
+(* class 4 claim <<b, b, 0, 4, 0, 0>> is an xattr block named by at least  *)
+(* one in-use inode.                                                       *)
 (***************************************************************************)
-OwnOf(i) ==
-    {<<r[1], r[2], i.ino, "data">>  : r \in Rng(i.own.data)}  \cup
-    {<<r[1], r[2], i.ino, "index">> : r \in Rng(i.own.index)} \cup
-    {<<r[1], r[2], i.ino, "ind">>   : r \in Rng(i.own.ind)}
+OwnList(i, c) == CASE c = 1 -> i.own.data [] c = 2 -> i.own.index [] c = 3 -> i.own.ind
+
+NOwn(st, k) == LET i == st.inodes[k] IN
+               IF InUse(st, i) THEN Len(i.own.data) + Len(i.own.index) + Len(i.own.ind) ELSE 0
 
 XUsed(st) == {st.inodes[k].own.xattr : k \in UsedIx(st)} \ {0}
 
-ExpectedClaims(st) ==
-    UNION {OwnOf(st.inodes[k]) : k \in UsedIx(st)} \cup {<<b, b, 0, "xattr">> : b \in XUsed(st)}
-
-AllEntries(st) == UNION {{<<d, e>> : e \in DOMAIN st.dirs[d].ents} : d \in DOMAIN st.dirs}
+XRefs(st) == {<<st.inodes[k].own.xattr, st.inodes[k].ino>> : k \in {j \in UsedIx(st) : st.inodes[j].own.xattr # 0}}
 
 EntryOf(st, r) == st.dirs[r[2]].ents[r[3]]
 
@@ -79,25 +80,64 @@ EFt(en)  == en[2]
 EIx(en)  == en[3]
 EDot(en) == en[4]
 
+\* strict lexicographic order on the first n components
+LexLt(a, b, n) == \E j \in 1..n : a[j] < b[j] /\ \A m \in 1..(j - 1) : a[m] = b[m]
+
 (***************************************************************************)
 (* CertOK: the reader's certificates are what they claim to be.  A failure *)
-(* here is a defect of the reader, not of the filesystem.                  *)
+(* here is a defect of the reader, not of the filesystem.  Everything is   *)
+(* linear in the size of the state: lists are strictly sorted (hence free  *)
+(* of duplicates), every element is checked against the raw fact it cites, *)
+(* and cumulative offsets prove that nothing is missing.                   *)
 (***************************************************************************)
 CertOK(st) ==
     LET inos == st.inodes
         cl   == st.claims
         rf   == st.refs
+        xr   == st.xrefs
+        n    == Len(inos)
+        nd   == Len(st.dirs)
         InoNos == {inos[k].ino : k \in DOMAIN inos}
         Targets == {rf[k][1] : k \in DOMAIN rf}
-    IN  /\ \A k \in 1..(Len(inos) - 1) : inos[k].ino < inos[k + 1].ino
-        /\ \A k \in 1..(Len(cl) - 1) : cl[k][1] <= cl[k + 1][1]
-        /\ Rng(cl) = ExpectedClaims(st)
+        XU   == XUsed(st)
+    IN  /\ \A k \in 1..(n - 1) : inos[k].ino < inos[k + 1].ino
+        \* ---- claims = the own lists of the in-use inodes + the xattr blocks they name
+        /\ \A k \in 1..(Len(cl) - 1) : LexLt(cl[k], cl[k + 1], 6)
+        /\ \A k \in DOMAIN cl :
+             LET c == cl[k] IN
+             IF c[4] = 4 THEN c[1] = c[2] /\ c[3] = 0 /\ c[1] \in XU
+             ELSE /\ c[4] \in 1..3 /\ c[5] \in 1..n
+                  /\ inos[c[5]].ino = c[3] /\ InUse(st, inos[c[5]])
+                  /\ c[6] \in DOMAIN OwnList(inos[c[5]], c[4])
+                  /\ OwnList(inos[c[5]], c[4])[c[6]] = <<c[1], c[2]>>
+        /\ n > 0
+        /\ inos[1].coff = 0
+        /\ \A k \in 1..(n - 1) : inos[k + 1].coff = inos[k].coff + NOwn(st, k)
+        /\ Len(cl) = inos[n].coff + NOwn(st, n) + Cardinality(XU)
+        \* ---- xrefs = the (xattr block, in-use inode) pairs
+        /\ \A k \in 1..(Len(xr) - 1) : LexLt(xr[k], xr[k + 1], 2)
+        /\ Rng(xr) = XRefs(st)
+        /\ \A x \in Rng(st.xblocks) :
+             IF x.xlo <= x.xhi
+             THEN /\ x.xlo >= 1 /\ x.xhi <= Len(xr)
+                  /\ xr[x.xlo][1] = x.blk /\ xr[x.xhi][1] = x.blk
+                  /\ (x.xlo = 1 \/ xr[x.xlo - 1][1] < x.blk)
+                  /\ (x.xhi = Len(xr) \/ xr[x.xhi + 1][1] > x.blk)
+             ELSE x.blk \notin XU
+        /\ XU \subseteq {x.blk : x \in Rng(st.xblocks)}
+        \* ---- the fixed-metadata list
         /\ \A k \in 1..(Len(st.fixed_list) - 1) : st.fixed_list[k][1] <= st.fixed_list[k + 1][1]
         /\ Rng(st.fixed_list) =
              UNION {{<<r[1], r[2], c>> : r \in Rng(st.fixed[c])} : c \in DOMAIN st.fixed}
+        \* ---- refs = all directory entries, sorted by the inode they name
         /\ \A k \in 1..(Len(rf) - 1) : Lt3(rf[k], rf[k + 1])
-        /\ {<<rf[k][2], rf[k][3]>> : k \in DOMAIN rf} = AllEntries(st)
-        /\ \A k \in DOMAIN rf : EIno(EntryOf(st, rf[k])) = rf[k][1]
+        /\ \A k \in DOMAIN rf :
+             /\ rf[k][2] \in 1..nd /\ rf[k][3] \in DOMAIN st.dirs[rf[k][2]].ents
+             /\ EIno(EntryOf(st, rf[k])) = rf[k][1]
+        /\ (nd = 0 => Len(rf) = 0)
+        /\ (nd > 0 => /\ st.dirs[1].eoff = 0
+                      /\ \A d \in 1..(nd - 1) : st.dirs[d + 1].eoff = st.dirs[d].eoff + Len(st.dirs[d].ents)
+                      /\ Len(rf) = st.dirs[nd].eoff + Len(st.dirs[nd].ents))
         /\ \A k \in DOMAIN inos :
              LET i == inos[k] IN
              IF i.rlo <= i.rhi
@@ -112,7 +152,7 @@ CertOK(st) ==
                   LET en == st.dirs[d].ents[e] IN
                   IF EIx(en) = 0 THEN EIno(en) \notin InoNos
                   ELSE EIx(en) \in DOMAIN inos /\ inos[EIx(en)].ino = EIno(en)
-        /\ \A d \in 1..(Len(st.dirs) - 1) : st.dirs[d].dir < st.dirs[d + 1].dir
+        /\ \A d \in 1..(nd - 1) : st.dirs[d].dir < st.dirs[d + 1].dir
 
 (***************************************************************************)
 (* 1. InRange                                                              *)
@@ -144,8 +184,6 @@ NotFixedMeta(st) ==
 (***************************************************************************)
 AdjDisjoint(rs) == \A k \in 1..(Len(rs) - 1) : rs[k][2] < rs[k + 1][1]
 
-XRefs(st) == {<<st.inodes[k].own.xattr, st.inodes[k].ino>> : k \in {j \in UsedIx(st) : st.inodes[j].own.xattr # 0}}
-
 SingleOwner(st) ==
     LET cl == st.claims IN
     /\ \/ Feature(st, "shared_blocks")     \* the read-only feature that declares blocks shared between inodes
@@ -155,11 +193,8 @@ SingleOwner(st) ==
                \/ cl[k][3] = cl[k + 1][3] /\ cl[k][3] # 0
     /\ \A k \in UsedIx(st) :
          LET o == st.inodes[k].own IN AdjDisjoint(o.data) /\ AdjDisjoint(o.index) /\ AdjDisjoint(o.ind)
-    /\ XRefs(st) = UNION {{<<x.blk, r>> : r \in Rng(x.referrers)} : x \in {y \in Rng(st.xblocks) : y.blk \in XUsed(st)}}
-    /\ \A x \in Rng(st.xblocks) :
-         x.blk \in XUsed(st) =>
-            /\ \A k \in 1..(Len(x.referrers) - 1) : x.referrers[k] < x.referrers[k + 1]
-            /\ x.refcount = Cardinality({p \in XRefs(st) : p[1] = x.blk})
+    \* h_refcount of a shared xattr block = number of in-use inodes naming it (its slice of xrefs)
+    /\ \A x \in Rng(st.xblocks) : x.xlo <= x.xhi => x.refcount = x.xhi - x.xlo + 1
 
 (***************************************************************************)
 (* 4. BitmapsExact                                                         *)
@@ -277,7 +312,7 @@ Shapes(st) ==
     /\ st.sb_err = <<>> /\ st.gd_err = <<>> /\ st.inode_err = <<>>
     /\ \A k \in UsedIx(st) : st.inodes[k].shape_err = <<>>
     /\ \A d \in DOMAIN st.dirs : st.dirs[d].err = <<>>
-    /\ \A x \in Rng(st.xblocks) : x.blk \in XUsed(st) => x.err = <<>> /\ x.hash_ok
+    /\ \A x \in Rng(st.xblocks) : x.xlo <= x.xhi => x.err = <<>> /\ x.hash_ok
     /\ \A k \in DOMAIN st.gd : st.gd[k].bb_pad_ok
     /\ st.journal.err = <<>>
     /\ st.orphans.err = <<>> /\ st.orphans.file.err = <<>>
@@ -290,7 +325,7 @@ Csums(st) ==
     /\ \A k \in UsedIx(st) : st.inodes[k].csum_ok /\ st.inodes[k].csum_err = <<>>
     /\ st.free_inode_csum_err = <<>>          \* initialised but unused inodes carry a checksum too
     /\ \A d \in DOMAIN st.dirs : st.dirs[d].csum_err = <<>>
-    /\ \A x \in Rng(st.xblocks) : x.blk \in XUsed(st) => x.csum_ok
+    /\ \A x \in Rng(st.xblocks) : x.xlo <= x.xhi => x.csum_ok
     /\ st.journal.csum_ok
     /\ st.orphans.file.csum_err = <<>>
     /\ st.mmp.csum_ok /\ st.mmp.magic_ok
